@@ -909,10 +909,20 @@ func (g *gen) userIO(n int, flatInts bool) []ioField {
 			t = vec(g.intn("vn", 2, 4), []string{"f32", "f32", "i32", "u32"}[g.pick("sc", 4)])
 		}
 		attr := fmt.Sprintf("@location(%d)", i)
+		interp := ""
 		if flatInts && t.sc != "f32" {
-			attr += " @interpolate(flat)"
-		} else if flatInts && g.chance("interp", 20) {
-			attr += []string{" @interpolate(linear)", " @interpolate(perspective, centroid)", " @interpolate(flat)"}[g.pick("interp", 3)]
+			interp = "@interpolate(flat)"
+		} else if flatInts && g.chance("interp", 30) {
+			interp = []string{"@interpolate(linear)", "@interpolate(perspective, centroid)", "@interpolate(flat)", "@interpolate(linear, sample)", "@interpolate(perspective)"}[g.pick("interp", 5)]
+		}
+		if interp != "" {
+			// the attributes of one declaration may come in any order
+			if g.chance("interpFirst", 50) {
+				g.feat("io-interpolate-before-location")
+				attr = interp + " " + attr
+			} else {
+				attr += " " + interp
+			}
 		}
 		out = append(out, ioField{fmt.Sprintf("f%d", i), t, attr})
 	}
@@ -994,7 +1004,17 @@ func (g *gen) genFragment(varying []ioField) {
 		f.ptr = append(f.ptr, false)
 	}
 	header := ""
-	switch g.pick("fragOut", 4) {
+	switch g.pick("fragOut", 5) {
+	case 4:
+		// dual-source blending: two outputs share location 0 and differ by @blend_src, written in either order
+		a, b := "@location(0) @blend_src(0)", "@location(0) @blend_src(1)"
+		if g.chance("blendFirst", 50) {
+			a, b = "@blend_src(0) @location(0)", "@blend_src(1) @location(0)"
+		}
+		f.result = g.ioStruct("FDual", []ioField{{"color", vec(4, "f32"), a}, {"blend", vec(4, "f32"), b}})
+		g.feat("io-dual-source")
+		g.needDualSource = true
+		header = fmt.Sprintf("fn fs_main(%s) -> %s {", strings.Join(params, ", "), f.result)
 	case 0:
 		fields := []ioField{{"color", vec(4, "f32"), "@location(0)"}}
 		if g.chance("depth", 60) {
@@ -1153,7 +1173,11 @@ func genProgram(t *rapid.T) program {
 		fs = append(fs, f)
 	}
 	sortStrings(fs)
-	return program{Src: g.out.String(), Features: fs}
+	src := g.out.String()
+	if g.needDualSource {
+		src = "enable dual_source_blending;\n" + src
+	}
+	return program{Src: src, Features: fs}
 }
 
 func sortStrings(s []string) {
